@@ -6,17 +6,18 @@ A response is its `Headers` list (Model/Headers.lean). Every view is modelled as
   * `load`  : the property getter (parse the header into a fresh view),
   * `write` : the `on_update` closure the getter installs (serialise the view back),
   * the mutators of the view object, each answering (new state, was `on_update` called, result).
-The header codecs (`parse_list_header`, `parse_dict_header`, `dump_header`, `parse_csp_header`,
-`parse_content_range_header`, `WWWAuthenticate.from_header/to_header`, `parse_options_header`
-restricted to parameters without `*`) are transcribed here; they are the subject of C06 and are
-validated by the `views` stream.
+The header codecs are the ones of the C06 slice (`Model/Http.lean`: `parse_list_header`,
+`parse_set_header`, `parse_dict_header`, `dump_header`, `parse_csp_header`,
+`parse_content_range_header`, `WWWAuthenticate.from_header/to_header`, `parse_options_header`,
+`dump_options_header`), so that the round-trip theorems of Props/C06.lean apply to the views.
 
 Out of the model (values computed by the harness with the same library call): dates
-(`http_date` / `parse_date`), RFC 2231 `key*=charset''value` parameters.
+(`http_date` / `parse_date`).
 -/
 import WzVerif.Util.Py
 import WzVerif.Model.Headers
 import WzVerif.Model.Containers
+import WzVerif.Model.Http
 import WzVerif.Gen.Views
 namespace Wz.Views
 open Wz Hdr PyDict
@@ -41,76 +42,14 @@ def splitCh (c : Char) (s : Str) : List Str :=
     | x :: t, cur => if x == c then cur.reverse :: go t [] else go t (x :: cur)
   go s []
 
-/-! ### quoting / list and dict headers -/
+/-! ### the codecs (C06) -/
 
-def isTokenStr (s : Str) : Bool := s.all (fun ch => Gen.Containers.tokenChars.contains ch.toNat)
-
-def escapeQ (s : Str) : Str :=
-  s.flatMap (fun ch => if ch == '\\' then ['\\', '\\'] else if ch == '"' then ['\\', '"'] else [ch])
-
-/-- `http.quote_header_value(value, allow_token)` -/
-def quoteHeaderValue (s : Str) (allowToken : Bool := true) : Str :=
-  if s.isEmpty then ['"', '"']
-  else if allowToken && isTokenStr s then s
-  else '"' :: escapeQ s ++ ['"']
-
-structure PL where
-  res : List Str
-  part : Str
-  escape : Bool
-  quote : Bool
-
-/-- one character of the scanner of `urllib.request.parse_http_list` -/
-def plStep (st : PL) (cur : Char) : PL :=
-  if st.escape then { st with part := st.part ++ [cur], escape := false }
-  else if st.quote then
-    if cur == '\\' then { st with escape := true }
-    else if cur == '"' then { st with part := st.part ++ [cur], quote := false }
-    else { st with part := st.part ++ [cur] }
-  else if cur == ',' then { st with res := st.res ++ [st.part], part := [] }
-  else if cur == '"' then { st with part := st.part ++ [cur], quote := true }
-  else { st with part := st.part ++ [cur] }
-
-/-- `urllib.request.parse_http_list` -/
-def parseHttpList (s : Str) : List Str :=
-  let st := s.foldl plStep ⟨[], [], false, false⟩
-  let res := if st.part.isEmpty then st.res else st.res ++ [st.part]
-  res.map strip
-
-/-- remove one pair of surrounding double quotes -/
-def unwrapQuotes (item : Str) : Str :=
-  if item.length ≥ 2 && item.head? == some '"' && item.getLast? == some '"' then
-    (item.drop 1).dropLast
-  else item
-
-/-- `http.parse_list_header` -/
-def parseListHeader (v : Str) : List Str := (parseHttpList v).map unwrapQuotes
-
-/-- `http.dump_header(iterable of str)` -/
-def dumpList (l : List Str) : Str := List.intercalate ", ".toList (l.map (quoteHeaderValue ·))
-
-/-- `http.parse_dict_header` (keys ending in `*` lose the star; charset markers are not modelled) -/
-def parseDictHeader (v : Str) : ODict :=
-  (parseListHeader v).foldl (fun (result : ODict) item =>
-    let (k, has, val) := partitionCh '=' item
-    let key := strip k
-    if key.isEmpty then result
-    else if !has then PyDict.set result key none
-    else
-      let val := strip val
-      let key' := if key.getLast? == some '*' then key.dropLast else key
-      if key'.isEmpty then result
-      else PyDict.set result key' (some (unwrapQuotes val))) []
-
-/-- one `key[=value]` item of `dump_header(dict)` -/
-def dumpDictItem (quote : Str → Str → Str) (e : Str × Option Str) : Str :=
-  match e.2 with
-  | none => e.1
-  | some v => if e.1.getLast? == some '*' then e.1 ++ '=' :: v else e.1 ++ '=' :: quote e.1 v
-
-/-- `http.dump_header(dict)` -/
-def dumpDict (d : ODict) : Str :=
-  List.intercalate ", ".toList (d.map (dumpDictItem (fun _ v => quoteHeaderValue v)))
+/-- an exception raised while serialising a view (e.g. IndexError of `dump_header` on an empty
+key) propagates out of `on_update`; the headers are then left as they were -/
+def writeText (h : HList) (name : Str) (text : Except String Str) : HList × Except String Unit :=
+  match text with
+  | .ok t => ((Hdr.set h name t).1, (Hdr.set h name t).2)
+  | .error e => (h, .error e)
 
 /-! ### generic callback dict (`CallbackDict` / `UpdateDictMixin`) -/
 
@@ -156,11 +95,11 @@ namespace SetView
 /-- `parse_set_header(headers.get(name))` -/
 def load (h : HList) (name : Str) : HS.St :=
   match getKey h name with
-  | .ok v => if v.isEmpty then HS.construct [] else HS.construct (parseListHeader v)
+  | .ok v => HS.construct (Http.parseSetHeader v)
   | .error _ => HS.construct []
 
 /-- `HeaderSet.to_header` -/
-def dump (c : HS.St) : Str := dumpList c.headers
+def dump (c : HS.St) : Str := Http.headerSetToHeader c.headers
 
 /-- the `on_update` closure of `_set_property.fget` -/
 def write (h : HList) (name : Str) (c : HS.St) : HList :=
@@ -205,15 +144,17 @@ def pyInt (s : Str) : Option Int :=
 
 def load (h : HList) : ODict :=
   match getKey h "cache-control".toList with
-  | .ok v => if v.isEmpty then [] else parseDictHeader v
+  | .ok v => (match Http.parseCacheControl v with | .ok d => d | .error _ => [])
   | .error _ => []
 
-def dump (d : ODict) : Str := dumpDict d
+/-- `_CacheControl.to_header` (`dump_header` raises IndexError on an empty key) -/
+def dump (d : ODict) : Except String Str := Http.dumpHeaderDict d
 
 /-- the `on_update` closure of `Response.cache_control` -/
-def write (h : HList) (d : ODict) : HList :=
-  if d.isEmpty then (if Hdr.contains h "cache-control".toList then delKey h "cache-control".toList else h)
-  else (Hdr.set h "Cache-Control".toList (dump d)).1
+def write (h : HList) (d : ODict) : HList × Except String Unit :=
+  if d.isEmpty then
+    ((if Hdr.contains h "cache-control".toList then delKey h "cache-control".toList else h), .ok ())
+  else writeText h "Cache-Control".toList (dump d)
 
 /-- `_set_cache_value(key, value, type)` -/
 def setValue (d : ODict) (key : Str) (ty : Ty) (v : Val) : Out ODict Unit :=
@@ -276,22 +217,13 @@ namespace CSP
 
 abbrev St := Dict Str Str
 
-/-- `parse_csp_header(value)` (the header value, not None) -/
-def parse (v : Str) : St :=
-  (splitCh ';' v).foldl (fun (d : St) policy =>
-    let p := strip policy
-    if p.contains ' ' then
-      let (a, _, b) := partitionCh ' ' p
-      PyDict.set d (strip a) (strip b)
-    else d) []
-
 def load (h : HList) (name : Str) : St :=
   match getKey h name with
-  | .ok v => parse v
+  | .ok v => Http.parseCsp v
   | .error _ => []
 
 /-- `dump_csp_header` -/
-def dump (d : St) : Str := List.intercalate "; ".toList (d.map fun e => e.1 ++ ' ' :: e.2)
+def dump (d : St) : Str := Http.dumpCsp d
 
 /-- the `on_update` closure (`writeName` is the spelling it uses when setting) -/
 def write (h : HList) (name writeName : Str) (d : St) : HList :=
@@ -322,88 +254,35 @@ end CSP
 /-! ### Content-Range -/
 namespace CR
 
-structure St where
-  units : Option Str
-  start : Option Int
-  stop : Option Int
-  length : Option Int
-deriving Repr, DecidableEq
+abbrev St := Http.ContentRangeV
 
 def empty : St := ⟨none, none, none, none⟩
 
 /-- `http.is_byte_range_valid` -/
-def valid (start stop length : Option Int) : Bool :=
-  match start, stop with
-  | none, some _ => false
-  | some _, none => false
-  | none, none => (match length with | none => true | some l => l ≥ 0)
-  | some a, some b =>
-    match length with
-    | none => 0 ≤ a && a < b
-    | some l => if a ≥ b then false else 0 ≤ a && a < l
-
-/-- `_plain_int` : strip, then `-?\d+` -/
-def plainInt (s : Str) : Option Int :=
-  match strip s with
-  | '-' :: d => (CC.digitsVal d).map (fun n => -(n : Int))
-  | d => (CC.digitsVal d).map (fun n => (n : Int))
-
-/-- `value.strip().split(None, 1)` when it has two parts -/
-def splitWs1 (s : Str) : Option (Str × Str) :=
-  let t := strip s
-  let a := t.takeWhile (fun c => !Py.isSpace c)
-  let r := lstrip (t.dropWhile (fun c => !Py.isSpace c))
-  if a.isEmpty || r.isEmpty then none else some (a, r)
+def valid (start stop length : Option Int) : Bool := Http.isByteRangeValid start stop length
 
 /-- `parse_content_range_header(value)` for a present header -/
 def parse (v : Str) : Option St :=
-  match splitWs1 v with
-  | none => none
-  | some (units, rangedef) =>
-    let (rng, hasSlash, lengthStr) := partitionCh '/' rangedef
-    if !hasSlash then none else
-    let length? : Option (Option Int) :=
-      if lengthStr == ['*'] then some none else (plainInt lengthStr).map some
-    match length? with
-    | none => none
-    | some length =>
-      if rng == ['*'] then
-        (if valid none none length then some ⟨some units, none, none, length⟩ else none)
-      else
-        let (a, hasDash, b) := partitionCh '-' rng
-        if !hasDash then none else
-        match plainInt a, plainInt b with
-        | some start, some stop1 =>
-          if valid (some start) (some (stop1 + 1)) length then some ⟨some units, some start, some (stop1 + 1), length⟩
-          else none
-        | _, _ => none
+  match Http.parseContentRangeHeader v with
+  | .ok r => r
+  | .error _ => none
 
 def load (h : HList) : St :=
   match getKey h "content-range".toList with
   | .ok v => (parse v).getD empty
   | .error _ => empty
 
-/-- `ContentRange.to_header`; TypeError when `start` is set without `stop` -/
+/-- `ContentRange.to_header`; TypeError (`self._stop - 1`) when `start` is set without `stop` -/
 def toHeader (c : St) : Except String Str :=
-  match c.units with
-  | none => .ok []
-  | some u =>
-    let len : Str := match c.length with | none => ['*'] | some l => CC.intText l
-    match c.start with
-    | none => .ok (u ++ " */".toList ++ len)
-    | some a =>
-      match c.stop with
-      | none => .error "TypeError"
-      | some b => .ok (u ++ ' ' :: CC.intText a ++ '-' :: CC.intText (b - 1) ++ '/' :: len)
+  match c.units, c.start, c.stop with
+  | some _, some _, none => .error "TypeError"
+  | _, _, _ => .ok (Http.contentRangeToHeader c)
 
 /-- the `on_update` closure; an exception from `to_header` propagates to the caller of the mutator -/
 def write (h : HList) (c : St) : HList × Except String Unit :=
   match c.units with
   | none => (delKey h "content-range".toList, .ok ())
-  | some _ =>
-    match toHeader c with
-    | .ok t => ((Hdr.set h "Content-Range".toList t).1, (Hdr.set h "Content-Range".toList t).2)
-    | .error e => (h, .error e)
+  | some _ => writeText h "Content-Range".toList (toHeader c)
 
 /-- `Response.content_range` getter: the `ContentRange` constructor calls `set`, which calls the
 freshly installed `on_update` - so *reading* the property rewrites the header in normal form (or
@@ -435,45 +314,21 @@ end CR
 /-! ### WWW-Authenticate -/
 namespace Auth
 
-structure St where
-  type : Str
-  params : ODict
-  token : Option Str
-deriving Repr, DecidableEq
+abbrev St := Http.Auth
 
 def default : St := ⟨"basic".toList, [], none⟩
 
-/-- `WWWAuthenticate.from_header(value)` for a non-empty value -/
-def fromHeader (v : Str) : St :=
-  let (scheme, _, rest) := partitionCh ' ' v
-  let scheme := lower scheme
-  let rest := strip rest
-  if (rstripCh '=' rest).contains '=' then ⟨scheme, parseDictHeader rest, none⟩
-  else ⟨scheme, [], some rest⟩
-
 def load (h : HList) : St :=
   match getKey h "WWW-Authenticate".toList with
-  | .ok v => if v.isEmpty then default else fromHeader v
+  | .ok v => (match Http.wwwFromHeader v with | .ok (some a) => a | _ => default)
   | .error _ => default
 
-/-- text of a parameter value (`str(None)` is `"None"`) -/
-def valText : Option Str → Str
-  | none => "None".toList
-  | some s => s
-
 /-- `WWWAuthenticate.to_header` -/
-def toHeader (c : St) : Str :=
-  match c.token with
-  | some t => EH.title c.type ++ ' ' :: t
-  | none =>
-    if c.type == "digest".toList then
-      "Digest ".toList ++ List.intercalate ", ".toList (c.params.map fun e =>
-        e.1 ++ '=' :: quoteHeaderValue (valText e.2)
-          (!(Gen.Views.digestQuoted.contains (String.ofList e.1))))
-    else EH.title c.type ++ ' ' :: dumpDict c.params
+def toHeader (c : St) : Except String Str := Http.wwwToHeader c
 
 /-- `on_update`: `response.www_authenticate = value` with a (truthy) view object -/
-def write (h : HList) (c : St) : HList := (Hdr.set h "WWW-Authenticate".toList (toHeader c)).1
+def write (h : HList) (c : St) : HList × Except String Unit :=
+  writeText h "WWW-Authenticate".toList (toHeader c)
 
 inductive Op where
   | setType (s : Str)
@@ -507,66 +362,9 @@ namespace MP
 
 abbrev St := Dict Str Str
 
-def isKeyChar (c : Char) : Bool :=
-  c.isAlphanum || c == '_' || "!#$%&'*+-.^`|~".toList.contains c
-
-/-- closing position scan of a quoted string starting after the opening quote;
-returns (raw quoted text including both quotes, rest) -/
-def scanQuoted : List Char → Str → Option (Str × Str)
-  | [], _ => none
-  | '\\' :: '\\' :: t, acc => scanQuoted t ('\\' :: '\\' :: acc)
-  | '\\' :: '"' :: t, acc => scanQuoted t ('"' :: '\\' :: acc)
-  | '"' :: t, acc => some (('"' :: acc).reverse, t)
-  | c :: t, acc => scanQuoted t (c :: acc)
-
-def replaceAll (pat rep : Str) (s : Str) : Str :=
-  let rec go : Nat → List Char → List Char
-    | 0, s => s
-    | _, [] => []
-    | n + 1, c :: t =>
-      if pat.isPrefixOf (c :: t) && !pat.isEmpty then rep ++ go n ((c :: t).drop pat.length)
-      else c :: go n t
-  go (s.length + 1) s
-
-def unquoteParam (pv : Str) : Str :=
-  if pv.head? == some '"' && pv.getLast? == some '"' then
-    let inner := (pv.drop 1).dropLast
-    replaceAll "%22".toList ['"'] (replaceAll "\\\"".toList ['"'] (replaceAll "\\\\".toList ['\\'] inner))
-  else pv
-
-/-- the collection loop of `parse_options_header` over `rest` -/
-def collect : Nat → Str → List (Str × Str) → List (Str × Str)
-  | 0, _, acc => acc
-  | fuel + 1, rest, acc =>
-    let key := rest.takeWhile isKeyChar
-    let after := rest.dropWhile isKeyChar
-    let (acc', rest') :=
-      if !key.isEmpty && after.head? == some '=' then
-        let r := after.drop 1
-        let pk := lower key
-        let tok := r.takeWhile isKeyChar
-        if !tok.isEmpty then (acc ++ [(pk, tok)], r)
-        else if r.head? == some '"' then
-          match scanQuoted (r.drop 1) ['"'] with
-          | some (q, r') => (acc ++ [(pk, q)], r')
-          | none => (acc, r)
-        else (acc, r)
-      else (acc, rest)
-    if rest'.contains ';' then
-      collect fuel (lstrip ((rest'.dropWhile (· != ';')).drop 1)) acc'
-    else acc'
-
-/-- the options of `parse_options_header(value)` (no `*` parameters) -/
-def parseOptions (v : Str) : St :=
-  let (value, _, rest) := partitionCh ';' v
-  let value := strip value
-  let rest := strip rest
-  if value.isEmpty || rest.isEmpty then []
-  else (collect (rest.length + 1) rest []).foldl (fun d e => PyDict.set d e.1 (unquoteParam e.2)) []
-
 def load (h : HList) : St :=
   match getKey h "content-type".toList with
-  | .ok v => parseOptions v
+  | .ok v => (match Http.parseOptionsHeader v with | .ok r => r.2 | .error _ => [])
   | .error _ => []
 
 /-- `Response.mimetype` -/
@@ -575,16 +373,13 @@ def mimetype (h : HList) : Option Str :=
   | .ok ct => if ct.isEmpty then none else some (strip (splitCh ';' ct).head!)
   | .error _ => none
 
-/-- `dump_options_header(header, options)` -/
-def dumpOptions (header : Option Str) (d : St) : Str :=
-  let segs := (match header with | some x => [x] | none => []) ++
-    d.map fun e => if e.1.getLast? == some '*' then e.1 ++ '=' :: e.2 else e.1 ++ '=' :: quoteHeaderValue e.2
-  List.intercalate "; ".toList segs
+/-- `dump_options_header(self.mimetype, d)` -/
+def dumpOptions (header : Option Str) (d : St) : Except String Str :=
+  Http.dumpOptionsHeader header (d.map fun e => (e.1, some e.2))
 
 /-- the `on_update` closure -/
 def write (h : HList) (d : St) : HList × Except String Unit :=
-  let r := Hdr.set h "Content-Type".toList (dumpOptions (mimetype h) d)
-  (r.1, r.2)
+  writeText h "Content-Type".toList (dumpOptions (mimetype h) d)
 
 end MP
 
